@@ -203,6 +203,27 @@ fn run(case: &Case13) -> Option<(String, Value)> {
             }
             None
         }
+        7 => {
+            // topmost first, also with transparent colours: in a stack of Normal-mode layers the topmost visible cell at a
+            // position supplies the glyph and every colour of its own that is not the transparent colour
+            if case.overlay.is_some() || d.layers.iter().any(|l| l.mode != 0) {
+                return None;
+            }
+            for y in bb.1..bb.3 {
+                for x in bb.0..bb.2 {
+                    let Some((ch, fg, bg, _, _)) = ref_get(d, x, y) else { continue };
+                    let got = base.get_char((x, y));
+                    let ok = got.is_visible() && got.ch as u32 == ch && (fg == TR || got.attribute.get_foreground() == fg) && (bg == TR || got.attribute.get_background() == bg);
+                    if !ok {
+                        return Some((
+                            "stacking|L7-topmost-cell-supplies-glyph-and-own-colours".into(),
+                            json!({"x": x, "y": y, "engine": describe(&got), "topmost_cell": format!("ch={ch:#x} fg={fg} bg={bg}")}),
+                        ));
+                    }
+                }
+            }
+            None
+        }
         _ => {
             // absolute oracle on the fragment
             if case.overlay.is_some() || d.layers.iter().any(|l| l.mode != 0 || l.cells.iter().any(|c| c.fg == TR || c.bg == TR)) {
@@ -258,15 +279,15 @@ pub struct C13 {}
 impl C13 {
     fn case_for(&self, ctx: &Ctx, k: u64) -> Case13 {
         let mut rng = ctx.rng(k);
-        let law = 1 + (k % 6) as u8;
-        let normal_only = law == 6 || rng.chance(1, 3);
-        let transparent = law != 6 && rng.chance(1, 2);
+        let law = 1 + (k % 7) as u8;
+        let normal_only = law == 6 || law == 7 || rng.chance(1, 3);
+        let transparent = law == 7 || (law != 6 && rng.chance(1, 2));
         let mut d = DocD::single(10, 6);
         d.layers.clear();
         for _ in 0..(1 + rng.usize(5)) {
             d.layers.push(gen_layer(&mut rng, normal_only, transparent));
         }
-        let overlay = if law != 6 && rng.chance(1, 4) {
+        let overlay = if law != 6 && law != 7 && rng.chance(1, 4) {
             let mut l = gen_layer(&mut rng, true, false);
             l.alpha = true;
             l.visible = true;
@@ -321,7 +342,7 @@ impl Prop for C13 {
         "C13"
     }
     fn rule(&self) -> &'static str {
-        "stacks of 1..=5 layers (sizes 1..=12 x 1..=8, offsets -4..=6, normal/chars/attributes mode, alpha or opaque, visible or hidden, sparse content incl. transparent-colour half blocks, optional overlay) are queried with Buffer::get_char at every position of the bounding box plus a 2-cell border before and after a transformation that the stacking laws say is invisible: L1 insert an empty alpha layer at a stack index; L2 rewrite the cells of a hidden layer; L3 translate every layer and the overlay by d and query at p+d; L4 remove all layers below a visible opaque normal-mode layer and query inside its rectangle (also where the opaque layer's own cell uses the transparent colour); L5 move a layer and query positions it covers neither before nor after; L6 compare with a 15-line reference compositor on the fragment 'all layers normal mode, no transparent colours, no overlay'. Invisible results are compared as invisible only. distinct_nontrivial = distinct (law, stack shape, parameters) instances"
+        "stacks of 1..=5 layers (sizes 1..=12 x 1..=8, offsets -4..=6, normal/chars/attributes mode, alpha or opaque, visible or hidden, sparse content incl. transparent-colour half blocks, optional overlay) are queried with Buffer::get_char at every position of the bounding box plus a 2-cell border before and after a transformation that the stacking laws say is invisible: L1 insert an empty alpha layer at a stack index; L2 rewrite the cells of a hidden layer; L3 translate every layer and the overlay by d and query at p+d; L4 remove all layers below a visible opaque normal-mode layer and query inside its rectangle (also where the opaque layer's own cell uses the transparent colour); L5 move a layer and query positions it covers neither before nor after; L6 compare with a 15-line reference compositor on the fragment 'all layers normal mode, no transparent colours, no overlay'; L7 on normal-mode stacks with transparent-colour cells the topmost visible cell supplies the glyph and each of its own non-transparent colours. Invisible results are compared as invisible only. distinct_nontrivial = distinct (law, stack shape, parameters) instances"
     }
     fn meta(&self, ctx: &Ctx) -> Value {
         json!({"floor_evaluations": 5000, "floor_distinct": ctx.tier.pick(5000u64, 100000u64),
